@@ -22,8 +22,22 @@ def main():
     rep = vlib.Reporter(pid, tier)
     try:
         if a.replay:
+            # a replay file names the tier, the seed and the key of one reported violation: the check is re-run under exactly
+            # those and the verdict is whether THAT violation occurs again (exit 1) or not (exit 0)
             case = json.load(open(a.replay))
-            return mod.replay(case, rep)
+            os.environ['VERIF_SEED'] = str(case.get('seed', vlib.seed_from_env()))
+            rep = vlib.Reporter(pid, case.get('tier', tier))
+            mod.run(case.get('tier', tier), rep)
+            same = [v for v in rep.violations if v and v['key'] == case.get('key')]
+            exact = [v for v in same if json.dumps(v['case'], sort_keys=True, default=vlib._jd) == json.dumps(case.get('case'), sort_keys=True, default=vlib._jd)]
+            hit = exact or same
+            if hit:
+                print('VIOLATION property=%s replay=%s' % (pid, a.replay))
+                print('  why: %s' % hit[0]['why'])
+                print('%s: reproduced (%s)' % (pid, 'same case' if exact else 'same kind, %d occurrence(s)' % len(same)))
+                return 1
+            print('%s: the violation %r of %s is not reproduced on this tree (%d other violation(s))' % (pid, case.get('key'), a.replay, len([v for v in rep.violations if v])))
+            return 0
         coverage, assumptions = mod.run(tier, rep)
         return rep.finish(coverage, assumptions)
     except vlib.MachineryError as ex:
